@@ -618,7 +618,11 @@ func main() {
 	}
 	// capacity far beyond what a burst usually reaches (the framework's own default is 10^7): a
 	// submitter still blocks only when that many jobs are waiting
-	for _, q := range []int{65536, 65537, 200000} {
+	caps := []int{65536, 65537, 200000, 1<<20 + 3}
+	if run.Thorough() {
+		caps = append(caps, 1<<20, 1500000, 3000000)
+	}
+	for _, q := range caps {
 		trial++
 		scenarioCapacity(cfg{2, q, 1}, trial)
 	}
